@@ -20,7 +20,7 @@ pub enum RV {
 #[derive(Debug)]
 pub struct TupleV { pub name: Option<String>, pub fields: Vec<(Option<String>, RV)> }
 
-pub struct FnV { pub def: Rc<Function>, pub env: Env, pub nilary: bool, pub id: usize }
+pub struct FnV { pub def: Rc<Function>, pub env: Env, pub nilary: bool, pub id: usize, pub maybe_inferred: bool }
 impl std::fmt::Debug for FnV { fn fmt(&self, f: &mut std::fmt::Formatter<'_>) -> std::fmt::Result { write!(f, "<fn#{}>", self.id) } }
 
 #[derive(Debug)]
@@ -75,12 +75,13 @@ pub struct Interp {
     pub module_sources: HashMap<String, String>,
     pub counters: HashMap<&'static str, u64>,
     loading: Vec<String>,
+    in_argument: bool,
 }
 
 fn unsup<T>(s: &str) -> R<T> { Err(Ctl::Unsupported(s.to_string())) }
 
 impl Interp {
-    pub fn new(module_sources: HashMap<String, String>) -> Interp { Interp { budget: 2_000_000, next_fn: 0, modules: HashMap::new(), module_sources, counters: HashMap::new(), loading: vec![] } }
+    pub fn new(module_sources: HashMap<String, String>) -> Interp { Interp { budget: 2_000_000, next_fn: 0, modules: HashMap::new(), module_sources, counters: HashMap::new(), loading: vec![], in_argument: false } }
     fn tick(&mut self) -> R<()> { if self.budget == 0 { return Err(Ctl::Budget); } self.budget -= 1; Ok(()) }
     fn bump(&mut self, k: &'static str) { *self.counters.entry(k).or_insert(0) += 1; }
 
@@ -114,7 +115,15 @@ impl Interp {
     fn eval_chain(&mut self, chain: &Chain, input: RV, env: &mut Env) -> R<RV> {
         self.tick()?;
         let mut flowing = input;
-        for term in &chain.terms { flowing = self.eval_term(term, flowing, env)?; }
+        for (k, term) in chain.terms.iter().enumerate() {
+            let followed = k + 1 < chain.terms.len();
+            // a tuple followed by another term is a call argument: its top-level untyped function literals may
+            // get their parameter type from the callee
+            self.in_argument = followed && matches!(term, Term::Tuple(_));
+            flowing = self.eval_term(term, flowing, env)?;
+            self.in_argument = false;
+            if let (Term::Function(f), RV::Fn(fv)) = (term, &mut flowing) { if f.parameter_type.is_none() && f.body.is_some() && followed { if let Some(m) = Rc::get_mut(fv) { m.maybe_inferred = true; } } }
+        }
         if let Some(pat) = &chain.match_pattern { return self.do_match(pat, &flowing, env); }
         Ok(flowing)
     }
@@ -153,7 +162,7 @@ impl Interp {
                 let nilary = match &f.parameter_type { None => true, Some(Type::Tuple(t)) => t.name.is_none() && t.fields.is_empty() && !t.is_partial, _ => false };
                 if f.parameter_type.is_none() && f.body.is_some() { self.bump("untyped_function_literals"); }
                 self.next_fn += 1;
-                Ok(RV::Fn(Rc::new(FnV { def: Rc::new(f.clone()), env: env.clone(), nilary, id: self.next_fn })))
+                Ok(RV::Fn(Rc::new(FnV { def: Rc::new(f.clone()), env: env.clone(), nilary, id: self.next_fn, maybe_inferred: false })))
             }
             Term::Access(a) => self.eval_access(a, flowing, env, true),
             Term::Reference(a) => self.eval_access(a, flowing, env, false),
@@ -175,11 +184,22 @@ impl Interp {
     }
 
     fn eval_tuple(&mut self, t: &Tuple, flowing: RV, env: &mut Env) -> R<RV> {
-        let mut name: Option<String> = match &t.name { TupleName::Anonymous => None, TupleName::Named(n) => Some(n.clone()), TupleName::Inherit => match &flowing { RV::Tuple(ft) => ft.name.clone(), _ => return unsup("~[..] on a non-tuple") } };
+        // `Inherit` (`a[..., y: 3]`, `~[..., y: 2]`): the name comes from the first spread source
+        let spread_default = flowing.clone();
+        let name: Option<String> = match &t.name {
+            TupleName::Anonymous => None,
+            TupleName::Named(n) => Some(n.clone()),
+            TupleName::Inherit => {
+                let src = t.fields.iter().find_map(|f| if let FieldValue::Spread(s) = &f.value { Some(s.clone()) } else { None });
+                let sv = match src { Some(None) | None => flowing.clone(), Some(Some(n)) => match env.get(&n) { Some(Entry::Val(v)) => v.clone(), _ => return unsup("spread of unknown variable") } };
+                match &sv { RV::Tuple(ft) => ft.name.clone(), _ => return unsup("name inherited from a non-tuple") }
+            }
+        };
         let has_spread = t.fields.iter().any(|f| matches!(f.value, FieldValue::Spread(_)));
         if !has_spread {
             let mut fields = vec![];
-            for f in &t.fields { if let FieldValue::Chain(c) = &f.value { let v = self.eval_chain(c, flowing.clone(), env)?; fields.push((f.name.clone(), v)); } }
+            let as_arg = self.in_argument; self.in_argument = false;
+            for f in &t.fields { if let FieldValue::Chain(c) = &f.value { let mut v = self.eval_chain(c, flowing.clone(), env)?; if as_arg { if let (Some(Term::Function(fd)), RV::Fn(fv)) = (c.terms.last(), &mut v) { if fd.parameter_type.is_none() && fd.body.is_some() { if let Some(m) = Rc::get_mut(fv) { m.maybe_inferred = true; } } } } fields.push((f.name.clone(), v)); } }
             return Ok(RV::Tuple(Rc::new(TupleV { name, fields })));
         }
         self.bump("spreads");
@@ -190,8 +210,8 @@ impl Interp {
             match &f.value {
                 FieldValue::Chain(c) => { let v = self.eval_chain(c, flowing.clone(), env)?; put(&mut fields, f.name.clone(), v); }
                 FieldValue::Spread(src) => {
-                    let sv = match src { None => flowing.clone(), Some(n) => match env.get(n) { Some(Entry::Val(v)) => v.clone(), _ => return unsup("spread of unknown variable") } };
-                    match &sv { RV::Tuple(st) => { if matches!(t.name, TupleName::Inherit) && src.is_none() { name = st.name.clone(); } for (l, v) in &st.fields { put(&mut fields, l.clone(), v.clone()); } } _ => return unsup("spread of a non-tuple") }
+                    let sv = match src { None => spread_default.clone(), Some(n) => match env.get(n) { Some(Entry::Val(v)) => v.clone(), _ => return unsup("spread of unknown variable") } };
+                    match &sv { RV::Tuple(st) => { for (l, v) in &st.fields { put(&mut fields, l.clone(), v.clone()); } } _ => return unsup("spread of a non-tuple") }
                 }
             }
         }
@@ -234,6 +254,9 @@ impl Interp {
                 let mut a = arg;
                 loop {
                     self.tick()?;
+                    // `#{ .. }` takes nil — unless its parameter type was inferred from the call context, which
+                    // only the type checker knows: a non-nil argument reaching it is outside this evaluator
+                    if cur.maybe_inferred && !a.is_nil() { return unsup("untyped function literal applied to a non-nil argument (parameter may be inferred)"); }
                     let param = if cur.nilary { nil() } else { a };
                     let Some(body) = &cur.def.body else { return Ok(param) };
                     let env = cur.env.bind("$", Entry::Val(param.clone())).bind("^self", Entry::Val(RV::Fn(cur.clone())));
